@@ -175,7 +175,7 @@ func sharedMutable(a, b snapshot) string {
 
 // ---- SELECT text generator ----
 
-func randFieldText(r *rand.Rand, depth int) string {
+func cloneRandFieldText(r *rand.Rand, depth int) string {
 	var f string
 	switch r.Intn(16) {
 	case 0, 1, 2:
@@ -203,7 +203,7 @@ func randFieldText(r *rand.Rand, depth int) string {
 	return f
 }
 
-func randCondText(r *rand.Rand, depth int) string {
+func cloneRandCondText(r *rand.Rand, depth int) string {
 	n := 1 + r.Intn(4)
 	parts := make([]string, n)
 	for i := range parts {
@@ -217,7 +217,7 @@ func randCondText(r *rand.Rand, depth int) string {
 		case 5, 6:
 			parts[i] = pick(r, []string{"v", "a", "value", "host"}) + pick(r, []string{" = ", " != ", " > ", " < ", " >= ", " <= ", " <> "}) + pick(r, []string{"1", "1.5", "'x'", "true", "-3", "a", "10s", "2 + 3", "v * 2"})
 		case 7:
-			parts[i] = "(" + randCondText(r, depth+1) + ")"
+			parts[i] = "(" + cloneRandCondText(r, depth+1) + ")"
 		case 8:
 			parts[i] = randExprText(r, depth+2, r.Intn(3))
 		case 9:
@@ -248,7 +248,7 @@ func randSelectText(r *rand.Rand, depth int) string {
 		if i > 0 {
 			b.WriteString(", ")
 		}
-		b.WriteString(randFieldText(r, depth))
+		b.WriteString(cloneRandFieldText(r, depth))
 	}
 	if depth == 0 && r.Intn(4) == 0 {
 		b.WriteString(" INTO " + pick(r, []string{"tgt", `"db"."rp".tgt`, "db..tgt", `"a b"`, "db.rp.:MEASUREMENT", ":MEASUREMENT", "rp.tgt"}))
@@ -269,7 +269,7 @@ func randSelectText(r *rand.Rand, depth int) string {
 		}
 	}
 	if r.Intn(3) != 0 {
-		b.WriteString(" WHERE " + randCondText(r, depth))
+		b.WriteString(" WHERE " + cloneRandCondText(r, depth))
 	}
 	if r.Intn(2) == 0 {
 		nd := 1 + r.Intn(3)
